@@ -587,6 +587,22 @@ def sorted_values(I, st, items, key=None, reverse=False):
     if all(obj_lt(I, cur, k) for k in keys):
         yield from sort_objects(I, cur, items, keys, reverse)
         return
+    if all(isinstance(k, tuple) and len(k) >= 1 for k in keys):
+        # tuples compare lexicographically: if a concrete prefix is pairwise distinct, every comparison is decided
+        # inside that prefix and the remaining (symbolic / object) components are never looked at
+        for p in range(1, min(len(k) for k in keys) + 1):
+            pre = [k[:p] for k in keys]
+            if not all(conc(x) for x in pre):
+                break
+            if len(set(pre)) == len(pre):
+                try:
+                    order = sorted(range(len(items)), key=lambda i: pre[i], reverse=bool(reverse))
+                except TypeError:
+                    yield cur, exc("TypeError", "unorderable")
+                    return
+                I.trust("sorted", "A3: sorted/list.sort is the stable ordering permutation w.r.t. <")
+                yield cur, [items[i] for i in order]
+                return
     raise Unsupported("sorting symbolic keys")
 
 
